@@ -4,9 +4,11 @@
 
    case     = ((names ops keys) observed)
    names    = table of distinct member names (byte strings)
-   ops      = ((0 i) = AddNode(names[i]) | (1 i) = RemoveNode(names[i])) ...
+   ops      = ((0 i) = AddNode(names[i]) | (1 i) = RemoveNode(names[i])) ... followed by lookups of
+              every key; (2 i) / (3 i) = the same calls with NO lookup afterwards (quiet)
    keys     = byte strings
-   observed = one entry per op, taken after the op: ((r_1 .. r_k) repeat_equal cache_len cache_ok)
+   observed = one entry per op, taken after the op: ((r_1 .. r_k) repeat_equal cache_len cache_ok),
+              () for a quiet op
               r_j = index in `names` of GetNodeBy(key_j), -1 = the call panicked (empty
               ring), -2 = a string that is not in the table;
               repeat_equal = 1 iff a second round of the same lookups (made in reverse
@@ -29,10 +31,12 @@ Definition bytes_of (s : sx) : option (list Z) :=
   match s with SBytes b => Some (map Z.of_N b) | _ => None end.
 Definition op_of (s : sx) : option (Z * Z) :=
   match s with SList [SInt o; SInt i] => Some (o, i) | _ => None end.
-Definition obs_of (s : sx) : option (list Z * Z * (Z * Z)) :=
+(* None = a quiet op (no lookups were made after it): written () by the harness *)
+Definition obs_of (s : sx) : option (option (list Z * Z * (Z * Z))) :=
   match s with
+  | SList [] => Some None
   | SList [l; SInt rep; SInt cl; SInt cok] =>
-      match sx_ints l with Some r => Some (r, rep, (cl, cok)) | None => None end
+      match sx_ints l with Some r => Some (Some (r, rep, (cl, cok))) | None => None end
   | _ => None
   end.
 
@@ -45,27 +49,31 @@ Fixpoint forall2b {A B} (f : A -> B -> bool) (a : list A) (b : list B) : bool :=
   | _, _ => false
   end.
 
-(* model side: answers after every op *)
-Fixpoint model_obs (names : list name) (hs : list Z) (s : ring) (ops : list (Z * Z)) : list (list Z * Z) :=
+(* model side: answers after every observed op (op codes 0/1 = AddNode/RemoveNode followed
+   by lookups, 2/3 = the same calls with no lookup afterwards) *)
+Fixpoint model_obs (names : list name) (hs : list Z) (s : ring) (ops : list (Z * Z)) : list (option (list Z * Z)) :=
   match ops with
   | [] => []
   | (o, i) :: r =>
       let n := nth (Z.to_nat i) names [] in
-      let s' := if o =? 0 then add_node fnv1a n s else remove_node fnv1a n s in
-      (map (fun h => match get_node_at h s' with
-                     | None => -1
-                     | Some m => index_of m names 0
-                     end) hs,
-       Z.of_nat (length (sorted_hash s')))
+      let s' := if (o =? 0) || (o =? 2) then add_node fnv1a n s else remove_node fnv1a n s in
+      (if o <? 2 then
+         Some (map (fun h => match get_node_at h s' with
+                             | None => -1
+                             | Some m => index_of m names 0
+                             end) hs,
+               Z.of_nat (length (sorted_hash s')))
+       else None)
       :: model_obs names hs s' r
   end.
 
 (* the cache is compared through its length; that it is the sorted key set of the map is a
    theorem about the model (c17_cache_is_sorted_keys) and probed on the implementation *)
-Fixpoint corr (m : list (list Z * Z)) (obs : list (list Z * Z * (Z * Z))) : verdict :=
+Fixpoint corr (m : list (option (list Z * Z))) (obs : list (option (list Z * Z * (Z * Z)))) : verdict :=
   match m, obs with
   | [], [] => VOk
-  | (a, cl) :: m', (b, _, (cl', cok)) :: o' =>
+  | None :: m', None :: o' => corr m' o'
+  | Some (a, cl) :: m', Some (b, _, (cl', cok)) :: o' =>
       if negb (cok =? 1) then VMismatch 3
       else if negb (cl =? cl') then VMismatch 2
       else if list_eqb Z.eqb a b then corr m' o' else VMismatch 1
@@ -73,26 +81,36 @@ Fixpoint corr (m : list (list Z * Z)) (obs : list (list Z * Z * (Z * Z))) : verd
   end.
 
 (* property side: the members are tracked as a plain set of table indices; nothing of the
-   model is used *)
-Fixpoint prop (members prev : list Z) (ops : list (Z * Z)) (obs : list (list Z * Z * (Z * Z))) : verdict :=
+   model is used.  Between two observations several calls may have been made (quiet ops):
+   added / removed = the names added / removed since the previous observation, noop = every
+   one of those calls left the member set as it was.  What single changes allow composes to:
+   a key stays, or moves to a member added in between, or its previous member was removed in
+   between (for a single AddNode / RemoveNode these are sentences 3 and 4 verbatim). *)
+Fixpoint prop (members prev added removed : list Z) (noop : bool)
+              (ops : list (Z * Z)) (obs : list (option (list Z * Z * (Z * Z)))) : verdict :=
   match ops, obs with
   | [], [] => VOk
-  | (o, x) :: ops', (cur, rep, _) :: obs' =>
+  | (o, x) :: ops', ob :: obs' =>
+      let isadd := (o =? 0) || (o =? 2) in
       let was := zmem x members in
-      let members' := if o =? 0 then (if was then members else x :: members)
+      let members' := if isadd then (if was then members else x :: members)
                       else filter (fun y => negb (y =? x)) members in
-      let unchanged := if o =? 0 then was else negb was in
-      let v1 := match members' with
-                | [] => VOk
-                | _ => check_that (forallb (fun r => zmem r members') cur) (VPropFail 1)
-                end in
-      let v2 := check_that ((rep =? 1) && (negb unchanged || list_eqb Z.eqb prev cur)) (VPropFail 2) in
-      let v3 := if o =? 0
-                then check_that (forall2b (fun a b => (a =? b) || (b =? x)) prev cur) (VPropFail 3)
-                else VOk in
-      let v4 := if o =? 0 then VOk
-                else check_that (forall2b (fun a b => (a =? x) || (a =? b)) prev cur) (VPropFail 4) in
-      vjoin v1 (vjoin v2 (vjoin v3 (vjoin v4 (prop members' cur ops' obs'))))
+      let noop' := noop && (if isadd then was else negb was) in
+      let added' := if isadd then x :: added else added in
+      let removed' := if isadd then removed else x :: removed in
+      match ob with
+      | None => if o <? 2 then VBad else prop members' prev added' removed' noop' ops' obs'
+      | Some (cur, rep, _) =>
+          if negb (o <? 2) then VBad else
+          let v1 := match members' with
+                    | [] => VOk
+                    | _ => check_that (forallb (fun r => zmem r members') cur) (VPropFail 1)
+                    end in
+          let v2 := check_that ((rep =? 1) && (negb noop' || list_eqb Z.eqb prev cur)) (VPropFail 2) in
+          let v34 := check_that (forall2b (fun a b => (a =? b) || zmem b added' || zmem a removed') prev cur)
+                                (match removed' with [] => VPropFail 3 | _ => VPropFail 4 end) in
+          vjoin v1 (vjoin v2 (vjoin v34 (prop members' cur [] [] true ops' obs')))
+      end
   | _, _ => VBad
   end.
 
@@ -102,11 +120,14 @@ Definition check (c : sx) : verdict :=
       match map_opt bytes_of names, map_opt op_of ops, map_opt bytes_of keys, map_opt obs_of obs with
       | Some names, Some ops, Some keys, Some obs =>
           let nk := length keys in
-          if forallb (fun ob => Nat.eqb (length (fst (fst ob))) nk) obs
+          if forallb (fun ob => match ob with
+                                | Some ob => Nat.eqb (length (fst (fst ob))) nk
+                                | None => true
+                                end) obs
              && forallb (fun o => (0 <=? snd o) && (snd o <? Z.of_nat (length names))
-                                  && ((fst o =? 0) || (fst o =? 1))) ops
+                                  && (0 <=? fst o) && (fst o <=? 3)) ops
           then
-            vjoin (prop [] (map (fun _ => -1) keys) ops obs)
+            vjoin (prop [] (map (fun _ => -1) keys) [] [] true ops obs)
                   (corr (model_obs names (map fnv1a keys) empty ops) obs)
           else VBad
       | _, _, _, _ => VBad
